@@ -26,6 +26,8 @@
 // other command answers NOAUTH), SELECT 0..15, CLIENT SETNAME / GETNAME /
 // SETINFO LIB-NAME|LIB-VER / NO-TOUCH ON|OFF / NO-EVICT ON|OFF / ID / CAPA /
 // TRACKING / CACHING, READONLY, READWRITE, PING [msg], ECHO, QUIT, ROLE, INFO,
+// CLUSTER SLOTS (Options.Cluster: one node owning slots 0-16383; otherwise the
+// "cluster support disabled" error),
 // FAKE.ID [payload] (answers "<conn>:<cmdid>:<payload>").
 //
 // Keyspace (16 databases, strings and hashes, wrong type -> WRONGTYPE): GET,
@@ -164,6 +166,7 @@ type Options struct {
 	AZ                   string            // availability_zone reported by INFO when non-empty
 	InvalidateAfterReply bool              // Redis >= 7 order for the writer's own invalidation
 	TagErrors            bool              // append " [cmd=<id>]" to error replies
+	Cluster              bool              // answer CLUSTER SLOTS as a one-node cluster owning all slots (node address 127.0.0.1:6379)
 	OnDial               func(addr string) error
 }
 
